@@ -715,7 +715,7 @@ func c19Large(n, l int, mixed bool, saslMech string, extraAdv, extraWanted int, 
 func init() {
 	Register(&Prop{
 		ID:   "C19",
-		Rule: "family small-universe: full product wanted W ⊆ {a,b,zz,sasl} × SASL {none, PLAIN(u,p), EXTERNAL(\"\")} × advertised A ⊆ {a,b,sasl,zz} × reply to CAP REQ {ACK all, NAK, ACK in two lines, ACK then an unsolicited ACK :-a, ACK in reversed order} × SASL continuation {AUTHENTICATE + then 903; + then 904; 908 then 904; 904 at once} = 6144 scripts (thorough: × server lines one per segment / one segment per reaction × late / immediate ACK :-a × advertised order forward / reversed), one session each against a reactive model server; family unsolicited-plus: W × SASL {none, PLAIN, EXTERNAL, a mechanism whose Start fails} × A × reply {ACK, NAK, ACK in two lines} × an AUTHENTICATE + nobody asked for {before the reply to CAP REQ (after LS when nothing is requested), after the negotiation}; family late-lines: after the negotiation every sequence of up to 2 (thorough 3) further server lines over {ACK :-a, ACK :a, NAK :a, NAK :-a, NAK :a zz, ACK :-a b, NAK :-a -b, ACK :-zz, ACK :-sasl, NAK :-sasl}, HasCapability compared after each and a CAP END demanded after each (they are NAKs and ACKs that do not start SASL), after a completed SASL exchange and after one refused with 908 + 904 before the server asked for data (W ∈ {{a,b},{a,b,zz,sasl}} quick, all 16 thorough); family reconnect: the same client negotiates twice in one session (W ∈ 3 sets quick / all 16 thorough × SASL × first advertised set × second advertised set × first reply ACK / NAK × first SASL outcome 903 / 904), the second negotiation judged like the first against what the second server advertises; family large-sets: wanted = advertised sets of N capabilities with L-byte names (quick N ∈ {10,30,60}, L ∈ {10,40}; thorough N = 1..80, L ∈ {3..200} and mixed) × SASL × extra advertised / extra wanted names, every CAP REQ line ACKed (or NAKed); a case is one session; distinct = distinct (configuration, full client/server transcript)",
+		Rule: "family small-universe: full product wanted W ⊆ {a,b,zz,sasl} × SASL {none, PLAIN(u,p), EXTERNAL(\"\")} × advertised A ⊆ {a,b,sasl,zz} × reply to CAP REQ {ACK all, NAK, ACK in two lines, ACK then an unsolicited ACK :-a, ACK in reversed order} × SASL continuation {AUTHENTICATE + then 903; + then 904; 908 then 904; 904 at once} = 6144 scripts (thorough: × server lines one per segment / one segment per reaction × late / immediate ACK :-a × advertised order forward / reversed), one session each against a reactive model server; family unsolicited-plus: W × SASL {none, PLAIN, EXTERNAL, a mechanism whose Start fails} × A × reply {ACK, NAK, ACK in two lines} × an AUTHENTICATE + nobody asked for {before the reply to CAP REQ (after LS when nothing is requested), after the negotiation}; family late-lines: after the negotiation every sequence of up to 2 (thorough 3) further server lines over {ACK :-a, ACK :a, NAK :a, NAK :-a, NAK :a zz, ACK :-a b, NAK :-a -b, ACK :-zz, ACK :-sasl, NAK :-sasl, ACK :zz (a name that, for W = {a,b}, was never wanted)}, HasCapability compared after each and a CAP END demanded after each (they are NAKs and ACKs that do not start SASL), after a completed SASL exchange and after one refused with 908 + 904 before the server asked for data (W ∈ {{a,b},{a,b,zz,sasl}} quick, all 16 thorough); family reconnect: the same client negotiates twice in one session (W ∈ 3 sets quick / all 16 thorough × SASL × first advertised set × second advertised set × first reply ACK / NAK × first SASL outcome 903 / 904), the second negotiation judged like the first against what the second server advertises; family large-sets: wanted = advertised sets of N capabilities with L-byte names (quick N ∈ {10,30,60}, L ∈ {10,40}; thorough N = 1..80, L ∈ {3..200} and mixed) × SASL × extra advertised / extra wanted names, every CAP REQ line ACKed (or NAKed), and a boundary sweep (ten resp. twenty-one 40-byte names plus one of 5..75 bytes: every joined length 415..485 and 866..936); a case is one session; distinct = distinct (configuration, full client/server transcript)",
 		Assumptions: []string{
 			"single-line CAP LS replies (CAP 3.1); multi-line LS (\"CAP * LS * :\") is outside the statement's quantifier",
 			"the server acknowledges exactly the names of the REQ line it answers (or a split of them); it never acknowledges names that were not requested except the scripted ACK :-a",
@@ -750,7 +750,7 @@ func init() {
 				}
 			}
 			// late CAP lines after the negotiation: sequences over an alphabet of ACKs and NAKs that mention held and unheld names
-			lateAlpha := []string{"ACK :-a", "ACK :a", "NAK :a", "NAK :-a", "NAK :a zz", "ACK :-a b", "NAK :-a -b", "ACK :-zz", "ACK :-sasl", "NAK :-sasl"}
+			lateAlpha := []string{"ACK :-a", "ACK :a", "NAK :a", "NAK :-a", "NAK :a zz", "ACK :-a b", "NAK :-a -b", "ACK :-zz", "ACK :-sasl", "NAK :-sasl", "ACK :zz"}
 			var lateSeqs [][]string
 			depth := 2
 			if tier == "thorough" {
@@ -893,6 +893,26 @@ func init() {
 						}))
 					}
 				}
+			}
+			// boundary sweep: the joined length of the requested set takes every value in a window around one and around
+			// two request lines (ten resp. twenty-one 40-byte names, 409 resp. 860 bytes joined, plus one name of 5..75 bytes)
+			for _, mech := range mechs {
+				mech := mech
+				jobs = append(jobs, c19Job(fmt.Sprintf("large-sets/boundary/sasl=%s", mech), true, func(yield func(p *c19Script) bool) {
+					for _, nb := range []int{10, 21} {
+						for last := 5; last <= 75; last++ {
+							for _, rep := range []string{"ack", "nak"} {
+								p := c19Large(nb, 40, false, mech, 0, 0, rep)
+								c := c19Name("z", 2000+last, last)
+								p.W = append(p.W, c)
+								p.A = append(p.A, c)
+								if !yield(p) {
+									return
+								}
+							}
+						}
+					}
+				}))
 			}
 			// the runner keeps the first few samples / notes in job order: put the richest jobs first
 			rank := func(n string) int {
